@@ -229,8 +229,8 @@ mutual
       have : (Ty.struct ms sz ‹_›).sz = sz := by simp [Ty.sz, Ty.size]
       rw [this]
       exact hin.inWin (layoutOK_mem hw.2 m hm)
-    | .union none _, .union _ _ _, _, _, _ => by simp [leaves]
-    | .union (some k) cs, .union ms sz _, off, hw, hf => by
+    | .union none none _, .union _ _ _, _, _, _ => by simp [leaves]
+    | .union none (some k) cs, .union ms sz _, off, hw, hf => by
       simp only [wf, Bool.and_eq_true] at hw
       simp only [fits] at hf
       simp only [leaves]
@@ -260,14 +260,19 @@ mutual
     | .struct (some _) _, .inc _, _, _, h => by simp [fits] at h
     | .struct (some _) _, .struct _ _ _, _, _, h => by simp [fits] at h
     | .struct (some _) _, .union _ _ _, _, _, h => by simp [fits] at h
-    | .union none _, .scalar _ _, _, _, h => by simp [fits] at h
-    | .union none _, .array _ _, _, _, h => by simp [fits] at h
-    | .union none _, .inc _, _, _, h => by simp [fits] at h
-    | .union none _, .struct _ _ _, _, _, h => by simp [fits] at h
-    | .union (some _) _, .scalar _ _, _, _, h => by simp [fits] at h
-    | .union (some _) _, .array _ _, _, _, h => by simp [fits] at h
-    | .union (some _) _, .inc _, _, _, h => by simp [fits] at h
-    | .union (some _) _, .struct _ _ _, _, _, h => by simp [fits] at h
+    | .union none none _, .scalar _ _, _, _, h => by simp [fits] at h
+    | .union none none _, .array _ _, _, _, h => by simp [fits] at h
+    | .union none none _, .inc _, _, _, h => by simp [fits] at h
+    | .union none none _, .struct _ _ _, _, _, h => by simp [fits] at h
+    | .union none (some _) _, .scalar _ _, _, _, h => by simp [fits] at h
+    | .union none (some _) _, .array _ _, _, _, h => by simp [fits] at h
+    | .union none (some _) _, .inc _, _, _, h => by simp [fits] at h
+    | .union none (some _) _, .struct _ _ _, _, _, h => by simp [fits] at h
+    | .union (some _) _ _, .scalar _ _, _, _, h => by simp [fits] at h
+    | .union (some _) _ _, .array _ _, _, _, h => by simp [fits] at h
+    | .union (some _) _ _, .inc _, _, _, h => by simp [fits] at h
+    | .union (some _) _ _, .struct _ _ _, _, _, h => by simp [fits] at h
+    | .union (some _) _ _, .union _ _ _, _, _, h => by simp [fits] at h
     | .leaf none, .array _ _, _, _, h => by simp [fits] at h
     | .leaf none, .inc _, _, _, h => by simp [fits] at h
     | .leaf none, .struct _ _ _, _, _, h => by simp [fits] at h
